@@ -602,7 +602,9 @@ theorem nextRun_forwarding {κ ρ} (h : Handler κ ρ) (ctx : Option κ) (mws : 
   induction mws with
   | nil => rfl
   | cons m rest ih =>
-    rw [nextRun, hf m (by simp) ctx req]
+    rw [nextRun]
+    simp only [if_true]
+    rw [hf m (by simp) ctx req]
     exact ih (fun x hx => hf x (by simp [hx]))
 
 /-- A chain of `n` spies, for every `n`: each link is shown the caller's context, and the leaf is
@@ -620,7 +622,7 @@ theorem nextRun_spies {κ ρ} (h : Handler κ (List (Option κ) × ρ)) (ctx : O
 after the first hop: the fact is needed. -/
 theorem nextRun_spies_dropped {κ ρ} (h : Handler κ (List (Option κ) × ρ)) (c : κ) (n : Nat) (req : Msg) :
     nextRun false h (some c) (List.replicate (n + 1) spyMw) req =
-      (some c :: List.replicate n none ++ (h.handle req).1, (h.handle req).2) := by
+      (List.replicate (n + 1) none ++ (h.handle req).1, (h.handle req).2) := by
   have key : ∀ n, nextRun false h none (List.replicate n spyMw) req =
       (List.replicate n none ++ (h.handle req).1, (h.handle req).2) := by
     intro n
@@ -631,7 +633,8 @@ theorem nextRun_spies_dropped {κ ρ} (h : Handler κ (List (Option κ) × ρ)) 
       simp only [ite_self, spyMw, ih]
       simp [List.replicate_succ]
   rw [List.replicate_succ, nextRun]
-  simp only [spyMw, Bool.false_eq_true, if_false, key n, List.cons_append]
+  simp only [spyMw, Bool.false_eq_true, if_false, key n]
+  simp [List.replicate_succ]
 
 /-! ## owned / borrowed twins -/
 
